@@ -67,6 +67,37 @@ func installNatives(it *Interp) {
 		}
 		panic(undecided{"fmt.Fprintf to a writer other than the output buffer"})
 	}
+	isBuf := func(v Value) bool {
+		if p, ok := v.(*Ptr); ok {
+			v = p.cell.v
+		}
+		e, ok := v.(*Ext)
+		return ok && e.desc == "bytes.Buffer"
+	}
+	n["(*bytes.Buffer).WriteString"] = func(it *Interp, args []Value) []Value {
+		s, ok := args[1].(string)
+		if !isBuf(args[0]) || !ok {
+			panic(undecided{"WriteString on something other than the output buffer"})
+		}
+		it.out.WriteString(s)
+		return []Value{int64(len(s)), Nil{}}
+	}
+	n["(*bytes.Buffer).WriteByte"] = func(it *Interp, args []Value) []Value {
+		b, ok := args[1].(int64)
+		if !isBuf(args[0]) || !ok {
+			panic(undecided{"WriteByte on something other than the output buffer"})
+		}
+		it.out.WriteByte(byte(b))
+		return []Value{Nil{}}
+	}
+	n["(*bytes.Buffer).WriteRune"] = func(it *Interp, args []Value) []Value {
+		r, ok := args[1].(int64)
+		if !isBuf(args[0]) || !ok {
+			panic(undecided{"WriteRune on something other than the output buffer"})
+		}
+		it.out.WriteRune(rune(r))
+		return []Value{int64(1), Nil{}}
+	}
 	n["fmt.Sprintf"] = func(it *Interp, args []Value) []Value { return []Value{it.sprintf(args)} }
 	n["fmt.Errorf"] = func(it *Interp, args []Value) []Value { return []Value{&Ext{"error: " + it.sprintf(args)}} }
 	n["fmt.Fprintln"] = func(it *Interp, args []Value) []Value { return []Value{int64(0), Nil{}} }
@@ -650,13 +681,18 @@ func sigString(sig *types.Signature) string {
 	return s
 }
 
+// callsFprintf: the closure writes formatted text to the output buffer —
+// fmt.Fprintf(&buffer, …), or a Write* method of a bytes.Buffer.
 func callsFprintf(lit *ast.FuncLit, info *types.Info) bool {
 	found := false
 	ast.Inspect(lit.Body, func(n ast.Node) bool {
 		if ce, ok := n.(*ast.CallExpr); ok {
 			if se, ok := ce.Fun.(*ast.SelectorExpr); ok {
-				if f, ok := info.Uses[se.Sel].(*types.Func); ok && f.FullName() == "fmt.Fprintf" {
-					found = true
+				if f, ok := info.Uses[se.Sel].(*types.Func); ok {
+					switch f.FullName() {
+					case "fmt.Fprintf", "(*bytes.Buffer).WriteString", "(*bytes.Buffer).Write":
+						found = true
+					}
 				}
 			}
 		}
